@@ -26,7 +26,12 @@ def extra2(chk, results, scs):
     from ._conc import run_conc, report
     tree = list(range(10))
     cs = [ConcScenario('tree/contended-insert', hasher='samebin', capacity=40, prefill=tree, threads=[[('insert', 10)], [('get', 3)]], preemptions=2),
-          ConcScenario('tree/contended-remove', hasher='const', capacity=40, prefill=tree, threads=[[('remove', 4)], [('get', 7)]], preemptions=2)]
+          ConcScenario('tree/contended-remove', hasher='const', capacity=40, prefill=tree, threads=[[('remove', 4)], [('get', 7)]], preemptions=2),
+          # a reader inside the tree while a node with two children is swapped with its successor
+          ConcScenario('tree/remove-5-vs-get-4', hasher='const', capacity=40, prefill=tree, threads=[[('remove', 5)], [('get', 4)]], preemptions=2),
+          ConcScenario('tree/remove-3-vs-get-2', hasher='const', capacity=40, prefill=tree, threads=[[('remove', 3)], [('get', 2)]], preemptions=2),
+          ConcScenario('tree/remove-7-vs-get-6', hasher='samebin', capacity=40, prefill=tree, threads=[[('remove', 7)], [('get', 6)]], preemptions=2),
+          ConcScenario('tree/remove-1-vs-get-0', hasher='samebin', capacity=40, prefill=tree, threads=[[('remove', 1)], [('get', 0)]], preemptions=2)]
     res = run_conc(cs)
     chk.bounds['contended'] = '1 restructuring writer against 1 reader of the same tree bin, <= 2 preemptions: tree invariants and lock_state 0 at the end'
     report(chk, 'C06', res, cs, describe='tree invariants hold and the reader/writer lock word is back to 0 after contended restructuring')
